@@ -120,6 +120,25 @@ impl<'a> Gen<'a> {
     pub fn op(&mut self, m: &Model, gs: &GuardState) -> FsOp {
         if self.guarded {
             if let Some((d, _)) = gs.must_sync.iter().next() {
+                // the name of a durable file that was just removed is taken again (and given up again)
+                if let Some(p) = gs.removed_file.clone().filter(|p| if m.exists(p) { self.rng.chance(7, 8) } else { self.rng.chance(1, 3) }) {
+                    let open_h = m.handles.iter().find(|(_, x)| m.lookup(&p) == Ok(x.ino)).map(|(h, _)| *h);
+                    let op = if !m.exists(&p) {
+                        let h = (0..4u8).find(|h| !m.handles.contains_key(h)).unwrap_or(0);
+                        let create_new = self.rng.chance(1, 3);
+                        FsOp::Open { h, path: p, read: self.rng.bool(), write: true, append: false, truncate: true, create: !create_new, create_new, front: self.front() }
+                    } else if let Some(h) = open_h {
+                        FsOp::Close { h }
+                    } else {
+                        FsOp::RemoveFile { path: p, front: self.front() }
+                    };
+                    if guard_violation(m, gs, &op).is_none() {
+                        let mut probe = m.clone();
+                        if exec_model(&mut probe, &op) != Obs::Unjudged {
+                            return op;
+                        }
+                    }
+                }
                 // mostly flush at once; sometimes look at the tree first or rename the file on
                 if self.rng.chance(1, 4) {
                     for _ in 0..10 {
@@ -293,6 +312,10 @@ pub struct GuardState {
     pub renamed_to: Option<String>,
     /// parent of the directory whose removal is still unsynced (that parent may be removed next)
     pub removed_dir_in: Option<String>,
+    /// path of the file whose removal is still unsynced, if that file was quiescent (data and entry durable)
+    /// and handle-free when it was removed: its name may be taken once more by a truncating create, and
+    /// that new file may be closed and removed again before the directory is flushed
+    pub removed_file: Option<String>,
 }
 
 pub const KF_HANDLE: &str = "open-handle-across-rename-or-unlink";
@@ -361,6 +384,19 @@ pub fn guard_violation(m: &Model, gs: &GuardState, op: &FsOp) -> Option<&'static
                     && gs.must_sync.len() == 1
                     && gs.must_sync.contains_key(path)
                     && gs.must_sync.values().all(|w| *w == KF_REMOVE) =>
+            {
+                None
+            }
+            // re-using the name of the (durable, handle-free) file that was just removed: truncating create,
+            // close, remove again — all before the directory is flushed
+            FsOp::Open { path, truncate: true, write: true, create, create_new, .. }
+                if gs.removed_file.as_deref() == Some(path.as_str()) && !m.exists(path) && (*create || *create_new) && gs.must_sync.len() == 1 && gs.must_sync.values().all(|w| *w == KF_REMOVE) =>
+            {
+                None
+            }
+            FsOp::Close { h } if gs.removed_file.is_some() && m.handles.get(h).map(|x| m.lookup(gs.removed_file.as_deref().unwrap()) == Ok(x.ino)).unwrap_or(false) => None,
+            FsOp::RemoveFile { path, .. }
+                if gs.removed_file.as_deref() == Some(path.as_str()) && m.is_file(path) && !has_open_handle(m, path) && gs.must_sync.len() == 1 && gs.must_sync.values().all(|w| *w == KF_REMOVE) =>
             {
                 None
             }
@@ -452,13 +488,14 @@ pub fn guard_violation(m: &Model, gs: &GuardState, op: &FsOp) -> Option<&'static
 }
 
 /// Advance the guard state over an op that the model has just accepted with outcome `mo`.
-pub fn guard_step(gs: &mut GuardState, op: &FsOp, mo: &Obs) {
+pub fn guard_step(gs: &mut GuardState, op: &FsOp, mo: &Obs, after: &Model) {
     match op {
         FsOp::SyncDir { path, .. } => {
             gs.must_sync.remove(path);
             if gs.must_sync.is_empty() {
                 gs.renamed_to = None;
                 gs.removed_dir_in = None;
+                gs.removed_file = None;
             }
         }
         FsOp::Rename { from, to, .. } if *mo == Obs::Unit && from != to => {
@@ -467,8 +504,23 @@ pub fn guard_step(gs: &mut GuardState, op: &FsOp, mo: &Obs) {
             gs.renamed_to = Some(to.clone());
         }
         FsOp::RemoveFile { path, .. } | FsOp::RemoveDir { path, .. } | FsOp::RemoveDirAll { path, .. } if *mo == Obs::Unit => {
+            let first_remove = gs.must_sync.is_empty();
             gs.must_sync.insert(parent_of(path), KF_REMOVE);
             gs.removed_dir_in = if matches!(op, FsOp::RemoveDir { .. }) { Some(parent_of(path)) } else { None };
+            // was the removed file durable in data and entry, and free of handles? (the durable image still
+            // holds its entry: the removal is unsynced)
+            gs.removed_file = None;
+            if first_remove && matches!(op, FsOp::RemoveFile { .. }) {
+                if let Ok((parent, name)) = after.lookup_parent(path) {
+                    if let Some(ino) = after.durable_entries.get(&parent).and_then(|e| e.get(name)) {
+                        let clean = !after.snapshots.get(ino).map(|v| !v.is_empty()).unwrap_or(false);
+                        let free = !after.handles.values().any(|h| h.ino == *ino);
+                        if clean && free && !after.stale_paths.contains(path) {
+                            gs.removed_file = Some(path.clone());
+                        }
+                    }
+                }
+            }
         }
         _ => {}
     }
@@ -485,7 +537,7 @@ pub fn first_guard_violation(ops: &[FsOp]) -> Option<&'static str> {
         if mo == Obs::Unjudged {
             break;
         }
-        guard_step(&mut gs, op, &mo);
+        guard_step(&mut gs, op, &mo, &m);
     }
     None
 }
@@ -550,7 +602,7 @@ impl Property for C10 {
             let h = g.rng.below(hosts as u64) as usize;
             let op = g.op(&models[h], &gss[h]);
             let mo = exec_model(&mut models[h], &op);
-            guard_step(&mut gss[h], &op, &mo);
+            guard_step(&mut gss[h], &op, &mo, &models[h]);
             ops.push((h as u8, op));
         }
         Scenario { guarded, fs_seed, ops }
